@@ -88,6 +88,7 @@ From Got Require Import Cache CacheSteps RaceCache RaceCacheProofs.
 From Got Require Import RaceTasks RaceTasksProofs.
 From Got Require Import Atomics RaceAtomics RaceAtomicsProofs.
 From Got Require Import MutexWord RaceMutex RaceMutexProofs.
+From Got Require Import TaskQueue RaceTaskQueue RaceTaskQueueStruct RaceTaskQueueProofs.
 Local Open Scope nat_scope.
 
 (* ---- the monitor decides the relational happens-before notion of a data race ---- *)
@@ -793,4 +794,114 @@ Proof.
   - apply (rm_hb_chain _ 8 10 11 12 1 2 (RWrite 8) (RAcqRel 0) (RAcqRel 0) (RWrite 8) 0); try reflexivity; lia.
   - apply (rm_conflict_intro _ 1 12 0 2 (RWrite 8) (RWrite 8) 8); try reflexivity; [discriminate|left; reflexivity].
   - apply (rm_hb_chain _ 1 5 11 12 0 2 (RWrite 8) (RAcqRel 0) (RAcqRel 0) (RWrite 8) 0); try reflexivity; lia.
+Qed.
+
+(* ================================================================== taskx.Queue: the labelled step model *)
+
+(* ---- every run of tq_gstep (models/TaskQueue.v: the machine C09 replays against taskx/queue.go and
+   task_callback.go - producers calling SendCallback / SendTask on a channel of any capacity, ONE
+   consumer that receives and runs Do once per task, close of the close channel at any time, Get2
+   waiters started at any time on any handle) labelled by models/RaceTaskQueue.v.
+   Threads: producer i = i, the consumer = length progs, the closer = length progs + 1, waiter w =
+   length progs + 2 + w; no go-statement edges.  Per task: plain locations result / err / isHandled,
+   sync objects = the channel message carrying the task and the task's WaitGroup; closeChan = object 0.
+   Events: the allocation &taskCallback{..} = plain writes of the three fields by the producer, before
+   the send (release on the message; for a parked sender when a receive admits it); the consumer's
+   receive = acquire on that message; Do = plain writes of result and err (TqStore), then plain read
+   and write of isHandled, wg.Done = release, plain read of err (TqDone); Get2 = wg.Wait returns =
+   acquire, then plain reads of result and err (at the call, or in the step of the Done that releases
+   the parked waiter); close(closeChan) = release, a sender leaving through the close branch = acquire.
+   wg.Add(1) is given no event (it has no synchronisation meaning in the Go memory model).
+   c18_taskq_model_race_free: no happens-before race, for every capacity, every number of producers,
+   all programs (nil handlers / nil tasks / user tasks included), every schedule with any number of
+   Get2 waiters.  c18_taskq_trace_projects: the labelled trace is the model's own event trace
+   (tq_gtrace, what C09 compares with the code) mapped through the labelling. *)
+Theorem c18_taskq_model_race_free :
+  forall (cap : nat) (progs : list (list tq_op)) (gs : list tq_gact),
+    ~ hb_race (rtq_trace cap progs gs).
+Proof. exact rtq_race_free. Qed.
+Print Assumptions c18_taskq_model_race_free.
+
+Theorem c18_taskq_model_conflicts_ordered :
+  forall (cap : nat) (progs : list (list tq_op)) (gs : list tq_gact) (i j : nat),
+    i < j -> j < length (rtq_trace cap progs gs) ->
+    hb_conflict (rtq_trace cap progs gs) i j -> hb_hb (rtq_trace cap progs gs) i j.
+Proof. exact rtq_conflicts_ordered. Qed.
+Print Assumptions c18_taskq_model_conflicts_ordered.
+
+Theorem c18_taskq_model_monitor :
+  forall (cap : nat) (progs : list (list tq_op)) (gs : list tq_gact),
+    rc_raced (rc_run (rtq_nthreads progs gs) (rtq_trace cap progs gs)) = false
+    /\ hb_wf (rtq_nthreads progs gs) (rtq_trace cap progs gs).
+Proof. exact rtq_monitor_spec. Qed.
+Print Assumptions c18_taskq_model_monitor.
+
+Theorem c18_taskq_trace_projects :
+  forall (cap : nat) (progs : list (list tq_op)) (gs : list tq_gact),
+    rtq_trace cap progs gs =
+    flat_map (fun ae => rtq_events false (length progs) (fst ae) (snd ae))
+             (combine gs (tq_gtrace (tq_ginit cap progs) gs)).
+Proof. exact rtq_trace_projects_init. Qed.
+Print Assumptions c18_taskq_trace_projects.
+
+Theorem c18_taskq_rows_in_table : rtq_rows_in_table = true.
+Proof. exact rtq_rows_ok. Qed.
+Print Assumptions c18_taskq_rows_in_table.
+
+(* the seeded shape "isHandled set before the handler runs + Get2 fast path reading isHandled"
+   (seeded/C09-ishandled-early-plus-get-fastpath) races in the same analysis - even when the producer
+   hands the task to the Get2 caller with a synchronising hand-off: the consumer's plain write of
+   isHandled (and of result / err) is unordered with the caller's plain read *)
+Theorem c18_taskq_ishandled_early_refuted :
+  hb_race (rtq_trace_early 1 [[TqCallback (Some (5%Z, 0%Z))]]
+             [TqGBase (TqProd 0 false); TqGBase (TqRecv 0); TqGBase TqStore; TqGGet (TqHTask (0, 0))]).
+Proof. exact rtq_early_refuted. Qed.
+Print Assumptions c18_taskq_ishandled_early_refuted.
+
+(* deleting wg.Done's release (what "wg.Done() before the result store" amounts to) / the receive's
+   acquire from a race-free run makes it racy *)
+Theorem c18_taskq_done_release_needed :
+  let tr := rtq_trace 1 rtq_ex_progs rtq_ex_sched in
+  nth_error tr 13 = Some (2, RRel (rtq_wg (0, 0))) /\ ~ hb_race tr /\ hb_race (firstn 13 tr ++ skipn 14 tr).
+Proof. exact rtq_done_release_needed. Qed.
+Print Assumptions c18_taskq_done_release_needed.
+
+Theorem c18_taskq_receive_needed :
+  let tr := rtq_trace 1 rtq_ex_progs rtq_ex_sched in
+  nth_error tr 7 = Some (2, RAcq (rtq_msg (0, 0))) /\ ~ hb_race tr /\ hb_race (firstn 7 tr ++ skipn 8 tr).
+Proof. exact rtq_receive_needed. Qed.
+Print Assumptions c18_taskq_receive_needed.
+
+(* non-vacuity: capacity 1, producers 0 and 1 (threads 0, 1), consumer = thread 2, closer = 3, waiters
+   = 4, 5, 6.  Producer 0 sends callback task (0,0); waiter 0 parks on it; producer 1's callback task
+   (1,0) and producer 0's user task park (channel full); the consumer receives (0,0) admitting (1,0),
+   stores, Done releases waiter 0; waiter 1 returns at once; the consumer receives (1,0) admitting the
+   user task, stores; close; Done; waiter 2 reads (1,0); producer 1's last send leaves through close.
+   0  = producer 0's allocation write of result, overwritten by the consumer at 9 (send 3 -> receive 7);
+   9  = the consumer's write of result, read by the RELEASED waiter at 16 (wg.Done 13 -> wg.Wait 15);
+   10 = the consumer's write of err, read by the waiter that came later at 20 (13 -> 18);
+   4  = the PARKED sender's allocation write, overwritten by the consumer at 23 (its send completes at
+        the admitting receive: 8 -> the consumer's receive 21);
+   24 = the consumer's write of err of task (1,0), read by waiter 2 at 32 (28 -> 30) *)
+Example c18_taskq_model_nonvacuous :
+  let tr := rtq_trace 1 rtq_ex_progs rtq_ex_sched in
+  length tr = 37 /\
+  hb_conflict tr 0 9 /\ hb_hb tr 0 9 /\
+  hb_conflict tr 9 16 /\ hb_hb tr 9 16 /\
+  hb_conflict tr 10 20 /\ hb_hb tr 10 20 /\
+  hb_conflict tr 4 23 /\ hb_hb tr 4 23 /\
+  hb_conflict tr 24 32 /\ hb_hb tr 24 32.
+Proof.
+  cbv zeta. remember (rtq_trace _ _ _) as tr eqn:E. vm_compute in E. subst tr.
+  split; [reflexivity|]. repeat split.
+  - apply (rm_conflict_intro _ 0 9 0 2 (RWrite 0) (RWrite 0) 0); try reflexivity; [discriminate|left; reflexivity].
+  - apply (rm_hb_chain _ 0 3 7 9 0 2 (RWrite 0) (RRel 1) (RAcq 1) (RWrite 0) 1); try reflexivity; lia.
+  - apply (rm_conflict_intro _ 9 16 2 4 (RWrite 0) (RRead 0) 0); try reflexivity; [discriminate|left; reflexivity].
+  - apply (rm_hb_chain _ 9 13 15 16 2 4 (RWrite 0) (RRel 2) (RAcq 2) (RRead 0) 2); try reflexivity; lia.
+  - apply (rm_conflict_intro _ 10 20 2 5 (RWrite 1) (RRead 1) 1); try reflexivity; [discriminate|left; reflexivity].
+  - apply (rm_hb_chain _ 10 13 18 20 2 5 (RWrite 1) (RRel 2) (RAcq 2) (RRead 1) 2); try reflexivity; lia.
+  - apply (rm_conflict_intro _ 4 23 1 2 (RWrite 6) (RWrite 6) 6); try reflexivity; [discriminate|left; reflexivity].
+  - apply (rm_hb_chain _ 4 8 21 23 1 2 (RWrite 6) (RRel 7) (RAcq 7) (RWrite 6) 7); try reflexivity; lia.
+  - apply (rm_conflict_intro _ 24 32 2 6 (RWrite 7) (RRead 7) 7); try reflexivity; [discriminate|left; reflexivity].
+  - apply (rm_hb_chain _ 24 28 30 32 2 6 (RWrite 7) (RRel 8) (RAcq 8) (RRead 7) 8); try reflexivity; lia.
 Qed.
